@@ -22,16 +22,22 @@ CORPUS = os.path.join(C.VERIF, 'corpus', 'pipe')
 
 
 # ------------------------------------------------------------------------------------------------ program structure
+SPELLINGS = {'R': ['', 'r', 'c', 'a', 'g'], 'V': ['', 'r', 'c', 'g'], 'E': ['', 'c'], 'X': ['', 'c']}
+# how the parameter of a callback is SPELLED (harness/pipe.cpp): '' by value, r T&&, c const T&, a auto&&, g auto (R) / a generic
+# parameter constrained to V (V).  The class (R/V/E/X) is what the model sees: the spelling must not matter.
+
+
 class Step:
-    def __init__(self, sid, sig, mode, ex, beh):
+    def __init__(self, sid, sig, mode, ex, beh, spell=''):
         self.id, self.sig, self.mode, self.ex, self.beh = sid, sig, mode, ex, beh  # beh: ('val',k)|('res',r)|('throw',t)|('async',pid)
+        self.spell = spell
 
     def mode_s(self):
         return {'on': 'on:' + str(self.ex), 'detach': 'detach:' + str(self.ex)}.get(self.mode, self.mode)
 
     def text(self):
         b = self.beh
-        return '%d %s %s %s:%s' % (self.id, self.sig, self.mode_s(), b[0], b[1])
+        return '%d %s%s %s %s:%s' % (self.id, self.sig, self.spell, self.mode_s(), b[0], b[1])
 
     def submits(self):
         return self.mode not in ('inline', 'detach_inline')
@@ -50,8 +56,10 @@ class Src:
             return '%s %s' % (k, self.r)
         if k in ('contract', 'shared_contract'):
             return '%s p%d %s' % (k, self.p, self.ful)
-        if k == 'shared_handle':
-            return 'shared_handle s%d' % self.h
+        if k in ('shared_handle', 'share'):
+            return '%s s%d' % (k, self.h)
+        if k == 'share_on':
+            return 'share_on %s s%d' % (self.ex, self.h)
         if k in ('contract_on', 'async_contract', 'lazy_contract'):
             return '%s %s p%d %s' % (k, self.ex, self.p, self.ful)
         return '%s %s' % (k, self.head.text())
@@ -70,8 +78,10 @@ def ful_result(ful):
 def kind_of_src(s):
     if s.kind in ('ready', 'contract'):
         return 'F'
-    if s.kind == 'contract_on':
+    if s.kind in ('contract_on', 'share_on'):
         return 'O'
+    if s.kind == 'share':
+        return 'F'
     if s.kind in ('run', 'async_contract'):
         return 'F' if s.ex == 'inl' else 'O'
     if s.lazy():
@@ -193,8 +203,10 @@ def spec_src(st, prog, src, ovr, lazy):
         return st.offered(e, ful_result(src.ful)), e
     if k == 'shared_ready':
         return src.r, 'inl'
-    if k == 'shared_handle':
+    if k in ('shared_handle', 'share'):
         return ful_result(prog.kept[src.h][1]), 'inl'
+    if k == 'share_on':
+        return ful_result(prog.kept[src.h][1]), src.ex     # Share(sf, e): the FutureOn carries e
     return ful_result(src.ful), 'inl'
 
 
@@ -342,11 +354,22 @@ class Gen:
         good = [s for s in sigs if runs_on(s, inp)]
         sig = rng.choice(good) if rng.random() < 0.78 else rng.choice(sigs)
         beh = self.gen_beh(prog, depth, mode.startswith('detach'), st, inp)
-        return Step(self.new_id(prog), sig, mode, ex, beh)
+        spell = ''
+        if not hd and beh[0] != 'async' and rng.random() < (0.5 if self.emph == 'C02' else 0.3):
+            # the non-default spellings are instantiated for the int / Result / void return classes; a SharedFuture passes
+            # const references: the && spellings do not compile there
+            spell = rng.choice([x for x in SPELLINGS[sig] if not (x == 'r' and kind == 'S')])
+        return Step(self.new_id(prog), sig, mode, ex, beh, spell)
 
     def gen_src(self, prog, lazy, inner):
         rng = self.rng
-        if not lazy and prog.kept and rng.random() < (0.3 if inner else 0.2):
+        if not lazy and prog.kept and rng.random() < (0.3 if inner else 0.2) + (0.25 if self.emph == 'C05' else 0):
+            x = rng.random()
+            p_share = 0.75 if self.emph == 'C05' else 0.4
+            if x < p_share * 0.7:      # Share(sf, e): a FutureOn carrying e
+                return Src('share_on', ex=self.pick_ex(prog, allow_lib=rng.random() < 0.15), h=rng.choice(sorted(prog.kept)))
+            if x < p_share:            # Share(sf): a Future
+                return Src('share', h=rng.choice(sorted(prog.kept)))
             return Src('shared_handle', h=rng.choice(sorted(prog.kept)))   # a copy of a SharedFuture the client keeps
         if lazy:
             k = rng.choices(['task_ready', 'schedule', 'lazy_contract'], [4, 4, 1.5])[0]
@@ -403,7 +426,7 @@ class Gen:
             prog.cfg[k] = (queue, lim)
             if queue and rng.random() < 0.4:
                 prog.meta.setdefault('manual', set()).add(k)   # backed by the library's real ManualExecutor
-        if rng.random() < {'C02': 0.3, 'C03': 0.25}.get(self.emph, 0.12):
+        if rng.random() < {'C02': 0.3, 'C03': 0.25, 'C05': 0.3}.get(self.emph, 0.12):
             for j in range(rng.choice([1, 1, 2])):
                 prog.kept[j] = (self.new_p(prog), self.ful(), rng.random() < 0.6, rng.choice([1, 1, 2]))
         lazy = rng.random() < {'C12': 0.85, 'C02': 0.3, 'C03': 0.4}.get(self.emph, 0.25)
@@ -717,7 +740,8 @@ def reparse(lines):
     prog = Program()
 
     def pstep(t):
-        sid, sig, m, b = int(t[0]), t[1], t[2], t[3]
+        sid, sig, m, b = int(t[0]), t[1][0], t[2], t[3]
+        spell = t[1][1:]
         ex = None
         if m.startswith('on:'):
             m, ex = 'on', m[3:]
@@ -725,7 +749,7 @@ def reparse(lines):
             m, ex = 'detach', m[7:]
         bk, bv = b.split(':', 1)
         beh = (bk, int(bv)) if bk in ('val', 'throw', 'async') else (bk, bv)
-        return Step(sid, sig, m, ex, beh)
+        return Step(sid, sig, m, ex, beh, spell)
 
     def psrc(t):
         k = t[0]
@@ -733,8 +757,10 @@ def reparse(lines):
             return Src(k, r=t[1])
         if k in ('contract', 'shared_contract'):
             return Src(k, p=int(t[1][1:]), ful=t[2])
-        if k == 'shared_handle':
+        if k in ('shared_handle', 'share'):
             return Src(k, h=int(t[1][1:]))
+        if k == 'share_on':
+            return Src(k, ex=t[1], h=int(t[2][1:]))
         if k in ('contract_on', 'async_contract', 'lazy_contract'):
             return Src(k, ex=t[1], p=int(t[2][1:]), ful=t[3])
         h = pstep(t[1:])
@@ -1324,6 +1350,9 @@ def exhaustive(max_steps=2):
             10 * j + 6: Inner(10 * j + 6, Src('contract_on', ex='e1', p=20 + j, ful='set:e3'), [Step(b + 2, 'E', 'inherit', None, ('res', 'x5'))]),
             10 * j + 7: Inner(10 * j + 7, Src('shared_handle', h=0), []),      # a copy of the ready SharedFuture the client keeps
             10 * j + 8: Inner(10 * j + 8, Src('shared_handle', h=1), [Step(b + 3, 'V', 'inline', None, ('val', 2))]),  # fulfilled later
+            # Share(sf, e1) of the ready / the later-fulfilled kept SharedFuture: the FutureOn carries e1
+            10 * j + 9: Inner(10 * j + 9, Src('share_on', ex='e1', h=0), [Step(b + 4, 'V', 'inherit', None, ('val', 3))]),
+            10 * j + 10: Inner(10 * j + 10, Src('share_on', ex='e3', h=1), []),
         }
     srcs = [Src('ready', r='v1'), Src('ready', r='e2'), Src('ready', r='x3'), Src('contract', p=0, ful='set:v1'),
             Src('contract', p=0, ful='drop'), Src('contract_on', ex='e1', p=0, ful='set:v1'),
@@ -1331,7 +1360,8 @@ def exhaustive(max_steps=2):
             Src('run', head=Step(80, 'R', 'on', 'e2', ('val', 1)), ex='e2'),
             Src('async_contract', ex='e1', p=0, ful='set:v1'),
             Src('task_ready', r='v1'), Src('schedule', head=Step(80, 'V', 'on', 'e1', ('val', 1)), ex='e1'),
-            Src('lazy_contract', ex='e1', p=0, ful='set:x4')]
+            Src('lazy_contract', ex='e1', p=0, ful='set:x4'),
+            Src('share_on', ex='e1', h=0), Src('share_on', ex='e1', h=1), Src('share', h=0), Src('share_on', ex='e2', h=0)]
     modes = [('inline', None), ('on', 'e1'), ('on', 'e2'), ('on', 'e3'), ('inherit', None), ('detach_inline', None), ('detach', 'e1')]
     if max_steps >= 2:
         srcs = [srcs[i] for i in (0, 1, 3, 5, 6, 9, 10, 11)]
@@ -1342,16 +1372,20 @@ def exhaustive(max_steps=2):
         starts = ['tofuture', 'tofuture:e1', 'detach', 'cancel'] if src.lazy() else [None]
         for n in range(max_steps + 1):
             behs = [[('val', 1), ('res', 'e7'), ('res', 'v8'), ('throw', 9)] + [('async', pid) for pid in inner_defs(j)] for j in range(n)]
-            per_step = [list(itertools.product('RVEX', modes, behs[j])) for j in range(n)]
+            sigs = [(c, sp) for c in 'RVEX' for sp in (SPELLINGS[c] if max_steps == 1 else [''])]   # class x parameter spelling
+            per_step = [list(itertools.product(sigs, modes, behs[j])) for j in range(n)]
             for combo in itertools.product(*per_step):
                 k = k0
                 steps = []
                 ok = True
-                for j, (sig, (m, ex), beh) in enumerate(combo):
+                for j, ((sig, spell), (m, ex), beh) in enumerate(combo):
                     if m.startswith('detach') and beh[0] in ('res', 'async'):
                         ok = False
                         break
-                    st = Step(j + 1, sig, m, ex, beh)
+                    if spell and (beh[0] == 'async' or (spell == 'r' and k == 'S')):
+                        ok = False
+                        break
+                    st = Step(j + 1, sig, m, ex, beh, spell)
                     k = kind_after(k, st)
                     if k == 'B' or (k == 'N' and j != n - 1):
                         ok = False
@@ -1368,7 +1402,7 @@ def exhaustive(max_steps=2):
                         p = Program()
                         p.cfg, p.src, p.steps, p.start = cfgs, src, steps, start
                         p.inner = dict(sorted(used.items()))
-                        uses_kept = sorted({i.src.h for i in used.values() if i.src.kind == 'shared_handle'})
+                        uses_kept = sorted({x.h for x in [i.src for i in used.values()] + [src] if x.kind in ('shared_handle', 'share', 'share_on')})
                         if uses_kept:
                             p.kept = {0: (28, 'set:v15', True, 1), 1: (29, 'set:v16', False, 2)}
                         body = ['src ' + src.text()]
@@ -1392,10 +1426,15 @@ def exhaustive(max_steps=2):
 # ------------------------------------------------------------------------------------------------ the check
 def distribution(progs, results):
     d = {'programs': len(progs), 'steps': 0, 'invoked': 0, 'combos': {}, 'sources': {}, 'starts': {}, 'lazy': 0, 'inner_run_heads': 0,
-         'rejected_jobs': 0, 'called_jobs': 0, 'nonterminal': 0}
+         'rejected_jobs': 0, 'called_jobs': 0, 'nonterminal': 0, 'spellings': {}, 'inner_sources': {}}
     for p, o in zip(progs, results):
         steps = all_steps(p)
         d['steps'] += len(steps)
+        for st_ in steps.values():
+            key = st_.sig + st_.spell
+            d['spellings'][key] = d['spellings'].get(key, 0) + 1
+        for i_ in p.inner.values():
+            d['inner_sources'][i_.src.kind] = d['inner_sources'].get(i_.src.kind, 0) + 1
         d['sources'][p.src.kind] = d['sources'].get(p.src.kind, 0) + 1
         if 'lazy' in p.tags:
             d['lazy'] += 1
